@@ -10,7 +10,8 @@ from . import _cls
 
 LEVEL = "proof"
 K = "pregex.core.classes.__Class."
-INTERVAL = [K + "__or.<locals>.reduce_ranges", K + "__or.<locals>.reduce_chars", K + "__sub.<locals>.subtract_ranges"]
+INTERVAL = [K + "__or.<locals>.reduce_ranges", K + "__or.<locals>.reduce_chars", K + "__sub.<locals>.subtract_ranges",
+            K + "__chars_to_ranges"]
 # G9b: the operator methods relative to the assumed core operations: which operands reach __or / __sub, in which order, after
 # the documented conversion of single characters / tokens to AnyFrom(c); the documented exception otherwise; ~ flips the flag
 # and re-brackets the verbose text
